@@ -1088,7 +1088,8 @@ namespace xsimd
     template <class T>
     XSIMD_INLINE typename std::enable_if<std::is_floating_point<T>::value, T>::type fnms(const T& a, const T& b, const T& c) noexcept
     {
-        return -std::fma(a, b, c);
+        // not -fma(a, b, c): an exactly zero result would get the opposite sign of -(a * b) - c
+        return std::fma(-a, b, -c);
     }
 
     namespace detail
